@@ -55,6 +55,10 @@ CHECKS.update({
             "Bounded: for every ordered family of <=2 terms (quick; + 300 seeded 3-term families; thorough: all 2955 ordered families) over the 15 factor subsets of {A(2), B(3), D(2), a numeric}, intercept on/off, clustering on/off, and the built-in contrasts for <=2-term families: the rank-reduced matrix has independent columns and the same column space as the unreduced one.",
             "Numeric data concrete (two generic rational points stand for 'general position'); fully crossed design replicated 3x (36 rows); <=3 terms, <=3 levels.",
             "DESIGN.md §3 C03"),
+    "C11": ("SR", "ground facts per (n, contrast, options) against closed-form exact-rational references; z3 QF_LRA for invertibility of [1|coding] over all coefficient vectors; Engine SR (QF_NRA) for contr.poly with symbolic scores and for encoding == a_i x coding[level_i] through the real pipeline with a symbolic numeric column",
+            "Bounded to n <= 8 ('for every n' cannot be made symbolic): shape, identity full coding, coefficient matrix = inverse, zero sums, dense = sparse, equality with the standard definitions, invertibility (solver); encoding of data = indicator x coding for all values of an interacting numeric column, incl. reference levels, explicit level lists, absent levels and null rows (3-4 levels).",
+            "n <= 8; label types str/int/mixed; pipeline part on 3 (4 with explicit lists) levels; evidence separates ground from solver-discharged obligations.",
+            "DESIGN.md §3 C11"),
 })
 
 NOT_APPLICABLE = {
